@@ -651,6 +651,7 @@ fn analyse(spec: &Spec) -> Analysis {
         dstar: bool,
         bad_quote: bool,
         bare_attr: bool,
+        defines_macro: Option<Vec<u8>>,
     }
     let mut lines = Vec::new();
     let mut defined_in_root_or_info: Vec<Vec<u8>> = Vec::new();
@@ -670,6 +671,7 @@ fn analyse(spec: &Spec) -> Analysis {
             lines.push(Line {
                 loc: loc.clone(),
                 names: toks.iter().map(|t| t.0.clone()).collect(),
+                defines_macro: head.strip_prefix(b"[attr]").filter(|n| !n.is_empty()).map(|n| n.to_vec()),
                 has_empty_name: toks.iter().any(|t| t.0.is_empty()),
                 // `[attr]` followed by a blank is an empty macro name for gitoxide, and a pattern (bracket expression) for git
                 bare_attr: head == b"[attr]",
@@ -730,7 +732,21 @@ fn analyse(spec: &Spec) -> Analysis {
         }
     }
     let reach_macro_not_set = closure(start);
-    let reach_empty_name = closure(lines.iter().filter(|l| l.has_empty_name).flat_map(|l| l.names.iter().cloned()).collect());
+    // if the line with the empty name is a macro definition, git drops that definition and gitoxide uses it: everything
+    // that any definition of that macro can reach is affected
+    let mut empty_name_start: Vec<Vec<u8>> =
+        lines.iter().filter(|l| l.has_empty_name).flat_map(|l| l.names.iter().cloned()).collect();
+    for l in lines.iter().filter(|l| l.has_empty_name) {
+        if let Some(m) = &l.defines_macro {
+            empty_name_start.push(m.clone());
+            for (o, body) in &bodies {
+                if o == m {
+                    empty_name_start.extend(body.iter().cloned());
+                }
+            }
+        }
+    }
+    let reach_empty_name = closure(empty_name_start);
     // An Outcome copies macro bodies when it is created and afterwards only when the NUMBER of known names changes. It
     // is created before the root .gitattributes and info/attributes are loaded, so macros that are defined there (for the
     // first time or again, also with an empty body) can be missing or stale, depending on which files were loaded since.
